@@ -13,6 +13,11 @@ Leg S2C : TLC -simulate behaviours (configuration + call order) are executed on 
           (file, document) ids.  Every state of the seek model becomes a real file + offset table for io.skip_lines.
           The groups of the "alloc" cases are what the REAL Allocator + calculate_worker_assignments put on one worker in
           one allocation column (over-committed parallel elements, several hosts).
+          Tracks are LOADED by the real loader.TrackSpecificationReader from a track.json structure in which
+          "includes-action-and-meta-data" is declared on document level, as corpus-level default, or on both (seeded per case);
+          offset tables are prepared with the line count of the loaded document set. Every second big-file case starts from a
+          HISTORY: tables built for an earlier revision of the files (same line count, other line lengths), files replaced by
+          the current revision with a later mtime, then prepared again and read (ExactCover / SeekCorrect on the current files).
 Leg pct : function-like: for every group size of 1..200 (thorough 300) bulks x every ingest percentage 1..100 and ten dyadic
           fractional ones, a real parameter source shared by 1..3 co-located clients is drained and the number of bulks handed
           out is validated by TLC against ceil(b * p / 100) in integer arithmetic (clause PctStop).
@@ -55,10 +60,11 @@ def _quiet():
 class FileSet:
     """The document files of one configuration. files: [{corpus, docs, meta}] (f = 1-based position)."""
 
-    def __init__(self, root, files, big=False):
+    def __init__(self, root, files, big=False, width=BIG_W, keep_tables=False):
         self.root = root
         self.files = files
         self.big = big
+        self.width = width  # big files: line i (1-based) has width + (i - 1) % 3 bytes
         self.paths = []
         os.makedirs(root, exist_ok=True)
         for f, spec in enumerate(files, 1):
@@ -73,7 +79,7 @@ class FileSet:
                         w(self._pad(self._meta(f, j), lineno))
                     lineno += 1
                     w(self._pad(self._doc(f, j), lineno))
-            if os.path.exists(p + ".offset"):
+            if os.path.exists(p + ".offset") and not keep_tables:
                 os.remove(p + ".offset")
 
     @staticmethod
@@ -87,7 +93,7 @@ class FileSet:
     def _pad(self, raw, lineno):
         if not self.big:
             return raw + b"\n"
-        n = BIG_W + (lineno - 1) % 3 - 1 - len(raw)
+        n = self.width + (lineno - 1) % 3 - 1 - len(raw)
         if n < 0:
             raise tlc.MachineryError("line too long for the big-file pattern")
         return raw + b" " * n + b"\n"
@@ -108,7 +114,7 @@ class FileSet:
         """[pat, n] for seek items: byte length of line i is pat[(i - 1) % len(pat)]."""
         n = self.lines(f)
         if self.big:
-            return [BIG_W, BIG_W + 1, BIG_W + 2], n
+            return [self.width, self.width + 1, self.width + 2], n
         with open(self.paths[f - 1], "rb") as fh:
             return [len(ln) for ln in fh], n
 
@@ -197,25 +203,33 @@ def _pct_value(num, den):
     return float(p)
 
 
-def build_track(fs, cfg, pct_full=False, extra=None):
-    from esrally.track import track
+DECL_STYLES = ["doc", "corpus", "both"]
 
+
+def track_spec(fs, cfg, pct_full=False, extra=None):
+    """The track as a track.json structure. Where "includes-action-and-meta-data" is declared is varied per corpus
+    (seeded by the case): on every document set ("doc"), as the corpus-level default with document-level entries only where a
+    file deviates ("corpus"), or on both levels ("both"). All styles declare exactly what the files contain."""
+    seed = (extra or {}).get("seed", 0)
     corpora = []
     for k in sorted({spec["corpus"] for spec in fs.files}):
-        docs = []
-        for f, spec in enumerate(fs.files, 1):
-            if spec["corpus"] == k:
-                docs.append(
-                    track.Documents(
-                        source_format=track.Documents.SOURCE_FORMAT_BULK,
-                        document_file=fs.paths[f - 1],
-                        includes_action_and_meta_data=spec["meta"],
-                        number_of_documents=spec["docs"],
-                        target_index="idx%d" % f,
-                    )
-                )
-        corpora.append(track.DocumentCorpus("corpus%d" % k, docs))
-    p = {"bulk-size": cfg["bulk"], "batch-size": cfg["bulk"] * cfg["mult"]}
+        members = [(f, spec) for f, spec in enumerate(fs.files, 1) if spec["corpus"] == k]
+        style = DECL_STYLES[(seed + k) % len(DECL_STYLES)]
+        metas = [spec["meta"] for _f, spec in members]
+        default = sum(metas) * 2 >= len(metas)  # corpus-level value: what most files of the corpus are
+        c = {"name": "corpus%d" % k, "documents": []}
+        if style != "doc" and (default or style == "both"):
+            c["includes-action-and-meta-data"] = default
+        effective_default = c.get("includes-action-and-meta-data", False)
+        for f, spec in members:
+            d = {"source-file": "f%d.json" % f, "document-count": spec["docs"]}
+            if style == "both" or spec["meta"] != effective_default or (style == "doc" and spec["meta"]):
+                d["includes-action-and-meta-data"] = spec["meta"]
+            if not spec["meta"] or (seed + f) % 2 == 0:
+                d["target-index"] = "idx%d" % f  # ignored by the loader for files that bring their own action lines
+            c["documents"].append(d)
+        corpora.append(c)
+    p = {"operation-type": "bulk", "bulk-size": cfg["bulk"], "batch-size": cfg["bulk"] * cfg["mult"]}
     if not pct_full and cfg["num"] != cfg["den"]:
         p["ingest-percentage"] = _pct_value(cfg["num"], cfg["den"])
     if cfg["conflict"] != "none":
@@ -225,9 +239,28 @@ def build_track(fs, cfg, pct_full=False, extra=None):
             p["conflict-probability"] = extra["prob"]
         if extra and extra.get("recency"):
             p["recency"] = extra["recency"]
-    op = track.Operation("bulk-op", track.OperationType.Bulk.to_hyphenated_string(), params=p)
-    task = track.Task("bulk-task", op, clients=cfg["N"])
-    trk = track.Track(name="c03", corpora=corpora, challenges=[track.Challenge("c", default=True, schedule=[task])])
+    return {
+        "description": "c03",
+        "indices": [{"name": "idx%d" % f, "auto-managed": False} for f in range(1, len(fs.files) + 1)],
+        "corpora": corpora,
+        "schedule": [{"name": "bulk-task", "operation": p, "clients": cfg["N"]}],
+    }
+
+
+def build_track(fs, cfg, pct_full=False, extra=None):
+    """The track is LOADED by the real loader (TrackSpecificationReader) from the track.json structure; as
+    loader.set_absolute_data_path does on the load generator, the document files then get their absolute paths."""
+    from esrally.track import loader
+
+    trk = loader.TrackSpecificationReader()("c03", track_spec(fs, cfg, pct_full, extra), fs.root)
+    f = 0
+    for corpus in trk.corpora:
+        for d in corpus.documents:
+            f += 1
+            d.document_file = os.path.join(fs.root, d.document_file)
+            if d.document_file != fs.paths[f - 1]:
+                raise tlc.MachineryError("loaded corpora are not in declaration order")
+    task = trk.challenges[0].schedule[0]
     return trk, task
 
 
@@ -319,12 +352,41 @@ def execute(case, root):
     _quiet()
     cfg = case["cfg"]
     groups = [list(g) for g in cfg["groups"]]
-    fs = FileSet(root, case["files"], big=case.get("big", False))
     prep = loader.DocumentSetPreparator("c03", None, None)
-    for f, spec in enumerate(fs.files, 1):
-        prep.create_file_offset_table(fs.paths[f - 1], fs.lines(f))
+    if case.get("stale"):
+        # history: offset tables were built for an EARLIER revision of the files (same line count, other line lengths);
+        # the files are then replaced by the current revision with a later modification time
+        old = FileSet(root, case["files"], big=True, width=BIG_W - 6)
+        for f in range(1, len(old.files) + 1):
+            prep.create_file_offset_table(old.paths[f - 1], old.lines(f))
+        fs = FileSet(root, case["files"], big=True, keep_tables=True)
+        now = int(os.path.getmtime(fs.paths[0]))
+        for path in fs.paths:
+            os.utime(path + ".offset", (now - 1000, now - 1000))
+            os.utime(path, (now - 500, now - 500))
+    else:
+        fs = FileSet(root, case["files"], big=case.get("big", False))
     conflict = cfg["conflict"] != "none"
     item = {"id": case["id"], "kind": "run", "files": case["files"], "cfg": cfg, "off": real_offsets(fs, cfg["N"]), "crash": None}
+    # preparation as the loader does it: the offset table is (re)built unless a valid one exists; the expected number of
+    # lines is what the LOADED document set declares
+    try:
+        trk, _task = build_track(fs, cfg, pct_full=True, extra=case)
+    except tlc.MachineryError:
+        raise
+    except Exception as ex:  # pylint: disable=broad-except
+        item["crash"] = "loading the track: %s: %s" % (type(ex).__name__, ex)
+        item["full"] = [[] for _ in groups]
+        item["events"] = []
+        item["fs"] = fs
+        return item
+    loaded = [d for c in trk.corpora for d in c.documents]
+    for f in range(1, len(fs.files) + 1):
+        try:
+            prep.create_file_offset_table(fs.paths[f - 1], loaded[f - 1].number_of_lines)
+        except Exception as ex:  # pylint: disable=broad-except
+            # e.g. DataError "Expected [N] lines but got [2N]" for a correctly declared file; the run goes on without a table
+            item["crash"] = "preparing %s: %s: %s" % (os.path.basename(fs.paths[f - 1]), type(ex).__name__, ex)
     allocs = case.get("_allocations")
     # reference run with ingest percentage 100: the bulks of every group
     random.seed(case["seed"])
@@ -388,6 +450,8 @@ def _position_after_skip(path, n):
     try:
         io.skip_lines(path, src, n)
         return size - len(src.read())
+    except ValueError:
+        return -1  # the real code raised (seek out of range): no position at all
     finally:
         src.close()
 
@@ -785,6 +849,7 @@ def big_case(spec, k, seed):
     return {
         "src": "big-files",
         "big": True,
+        "stale": k % 2 == 1,
         "files": spec["files"],
         "cfg": {"N": spec["N"], "groups": spec["groups"], "bulk": spec["bulk"], "mult": 1 + k % 2, "num": spec["num"], "den": spec["den"], "conflict": "none", "onc": "index"},
         "order": order,
@@ -843,7 +908,7 @@ def run_cases(cases, out, label, root, pending=None):
         if it["crash"]:
             out.violations.append(Violation("ExactCover", _public(case), signature=dict(_signature("run", ["ExactCover"], case), crash=True), detail="the real code raised %s" % it["crash"]))
         items.append(it)
-        if case.get("big"):
+        if case.get("big") and all(os.path.exists(pth + ".offset") for pth in fs.paths):
             # the same real files / real offset tables: seek with and without the table
             for f in range(1, len(fs.files) + 1):
                 pat, n = fs.pattern(f)
